@@ -36,7 +36,13 @@ type c13Case struct {
 
 const c13HandshakeIdle = 5 * time.Second
 
-func TestVerifC13Handshake(t *testing.T) {
+func TestVerifC13Handshake(t *testing.T) { c13Test(t, false) }
+
+// The same handshakes under the race detector (job built with -race): the fault-free case, single
+// faults and injections of every scenario, and a sample of the multi-fault schedules.
+func TestVerifC13HandshakeRace(t *testing.T) { c13Test(t, true) }
+
+func c13Test(t *testing.T, race bool) {
 	l := evlog.Open("C13")
 	defer l.Close()
 	var cases []c13Case
@@ -118,6 +124,17 @@ func TestVerifC13Handshake(t *testing.T) {
 			}
 			cases = append(cases, c13Case{Name: fmt.Sprintf("k%d/%s/%s/%04d", len(fs), sc, cl, i), Scenario: sc, Client: cl, Sched: simworld.Schedule{Faults: fs}})
 		}
+	}
+	if race {
+		// every 4th single-fault / injection case, every 40th multi-fault schedule
+		var sub []c13Case
+		for i, cs := range cases {
+			multi := len(cs.Sched.Faults) > 1
+			if (!multi && i%4 == int(l.Seed()%4)) || (multi && i%40 == int(l.Seed()%40)) {
+				sub = append(sub, cs)
+			}
+		}
+		cases = sub
 	}
 	for i, cs := range cases {
 		if !l.Mine(i) {
